@@ -139,10 +139,11 @@ PROPS = {
     ),
     "C06": dict(
         theorems=["HC.C06.frame", "HC.C06.header_round_trip", "HC.C06.entry_round_trip", "HC.C06.entries_read_back",
-                  "HC.C06.read_write", "HC.C06.bitfield_exact", "HC.C06.read_any_slots", "HC.C06.bitfield_pages"],
+                  "HC.C06.read_write", "HC.C06.bitfield_exact", "HC.C06.read_any_slots", "HC.C06.bitfield_pages",
+                  "HC.C06.node_slot", "HC.C06.node_slot_inv", "HC.C06.history_stores"],
         bridge_modules=["HC.Bridge.Oplog", "HC.Bridge.Stores"], bridging=OPLOG_BRIDGE + STORES_BRIDGE,
         runs=_c06_runs,
-        partial="proved: frame/header/entry round trips, read-back of any entry region, Oplog::open on any file laid out by the JS rules = the JS reader's rule (read_write for two valid slots in the exact slot layout, read_any_slots for any combination of valid/invalid slots, any frames, any non-frame tail), bitfield pages as little-endian bits. Tree/data stores and the interoperability hashes are covered by the run.",
+        partial="proved: frame/header/entry round trips, read-back of any entry region, Oplog::open on any file laid out by the JS rules = the JS reader's rule (read_write for two valid slots in the exact slot layout, read_any_slots for any combination of valid/invalid slots, any frames, any non-frame tail), bitfield pages as little-endian bits, tree slots (8-byte LE size + hash) and the data store as the concatenation of the blocks along every history (history_stores). The interoperability hashes are covered by the run.",
         rule="(1) the five-step interoperability scenario of tests/js_interop.rs executed by the crate and by the model; SHA-256 of the four stores after each step compared with the golden constants read from that test file; (2) after every mutating operation of writer and replica histories the raw bytes of the four real stores are handed to the Lean reader, whose reconstruction is compared with what the API reports; (3) every final storage is re-encoded with an independent encoder as {header in slot 1 only, header in slot 0 only, stale entries appended, trailing garbage, trailing zero leader, last entry flagged partial} and opened by the crate and the model",
         trusted=LOG_TRUSTED + ["the golden hashes are trusted as certified against the JavaScript implementation (the JS side cannot be run here)"],
     ),
